@@ -176,9 +176,9 @@ def run_case(inp):
             V("axes", "x, y, z are not the images of (0,0,1), (0,1,0), (1,0,0)")
         G = np.einsum("ni,nj->nij", z, z)
         for a, b, want in ((x, x, 1), (y, y, 1), (z, z, 1), (x, y, 0), (y, z, 0), (x, z, 0)):
-            if np.abs(np.sum(a * b, axis=1) - want).max() > tol:
+            if not (np.abs(np.sum(a * b, axis=1) - want).max() <= tol):
                 V("orthonormal", "axes are not orthonormal")
-        if np.abs(z - (-np.cross(x, y))).max() > tol:
+        if not (np.abs(z - (-np.cross(x, y))).max() <= tol):
             V("right-handed", "z != cross(x, y) in the z,y,x convention")
     elif kind == "from_axes":
         for kw, label in ((dict(z=z, y=y), "z,y"), (dict(y=y, x=x), "y,x"), (dict(z=z, x=x), "z,x")):
@@ -194,7 +194,7 @@ def run_case(inp):
                                f"member {bad} of a {inp['batch']} batch of {n})")
         # scaled (non-unit) inputs describe the same orientation
         m3 = Molecules.from_axes(pos, z=2.5 * z, y=0.3 * y)
-        if np.abs(m3.x - x).max() > 1e-5:
+        if not (np.abs(m3.x - x).max() <= 1e-5):
             V("from_axes", "from_axes with non-unit axis vectors gives a different orientation")
     elif kind == "roundtrip":
         seqs = ["ZXZ", "zxz", "XYZ", "xyz", "ZYX", "zyx", "YXZ", "yzx", "ZYZ"]
@@ -228,7 +228,7 @@ def run_case(inp):
                                     f"(|M M^T - 1| = {np.abs(M @ np.transpose(M, (0, 2, 1)) - np.eye(3)).max():.3g})")
                 break
         dd = r.uniform(-3, 3, size=3)
-        if np.abs(mq.translate_internal(dd).pos - (pos + rots.apply(dd))).max() > 1e-3:
+        if not (np.abs(mq.translate_internal(dd).pos - (pos + rots.apply(dd))).max() <= 1e-3):
             V("compose", "translate_internal on molecules built from non-unit quaternions does not add R d")
     elif kind == "compose":
         W = Rotation.random(n, random_state=inp["seed"] + 5)
@@ -241,7 +241,7 @@ def run_case(inp):
         if np.abs(b.pos - (pos + d.astype(np.float32))).max() > 1e-5 or (b.rotator * rots.inv()).magnitude().max() > 1e-9:
             V("compose", "translate is not a world translation")
         c = m.translate_internal(d)
-        if np.abs(c.pos - (pos + rots.apply(d))).max() > 1e-4:
+        if not (np.abs(c.pos - (pos + rots.apply(d))).max() <= 1e-4):
             V("compose", "translate_internal does not add R d")
         Q = Rotation.random(n, random_state=inp["seed"] + 9)
         e = m.rotate_by_rotvec_internal(Q.as_rotvec())
@@ -313,7 +313,7 @@ def run_case(inp):
         c = (np.array(shape) - 1) / 2
         for i in range(n):
             want = (pos[i].astype(np.float64) / scale)[:, None] + Rm[i] @ (kk - c[:, None])
-            if np.abs(lc[i].reshape(3, -1) - want).max() > 2e-4 * (1 + np.abs(want).max()):
+            if not (np.abs(lc[i].reshape(3, -1) - want).max() <= 2e-4 * (1 + np.abs(want).max())):
                 V("local_coordinates", f"local_coordinates differs from p/scale + R(k-(shape-1)/2) for member {i}")
                 break
         src = r.uniform(-3, 3, size=3)
@@ -322,11 +322,11 @@ def run_case(inp):
         o = r.uniform(-3, 3, size=3)
         for i in range(n):
             want = pos[i] + Rm[i] @ (o - src)
-            if np.abs((A[i] @ np.append(o, 1))[:3] - want).max() > 1e-3:
+            if not (np.abs((A[i] @ np.append(o, 1))[:3] - want).max() <= 1e-3):
                 V("affine_matrix", "affine_matrix is not o -> dst + R (o - src)")
                 break
             want_i = pos[i] + Rm[i].T @ (o - src)
-            if np.abs((Ai[i] @ np.append(o, 1))[:3] - want_i).max() > 1e-3:
+            if not (np.abs((Ai[i] @ np.append(o, 1))[:3] - want_i).max() <= 1e-3):
                 V("affine_matrix", "inverse affine_matrix is not o -> dst + R^T (o - src)")
                 break
     return viols
